@@ -69,9 +69,9 @@ def arrayInitialElement : P Sx :=
   <|> (do let e ← enumeratedValue; pure (.t "EnumValue" [e]))
 
 def arrayInitialElements : P Sx :=
-  (do let size ← integer; ws; let _ ← tok "LeftParen"
+  (do let size ← integer; ws; let _ ← tok "LeftParen"; ws
       let ai ← opt arrayInitialElement
-      let _ ← tok "RightParen"
+      ws; let _ ← tok "RightParen"
       pure (.t "Repeated" [.n "Repeated" [("size", sxInteger size), ("init", Sx.opt ai)]]))
   <|> arrayInitialElement
 
